@@ -27,17 +27,18 @@ pub fn level_of(name: &str) -> Option<Level> {
 struct Aligned {
     buf: Vec<u8>,
     start: usize,
+    len: usize,
 }
 impl Aligned {
     fn new(len: usize) -> Aligned {
         let buf = vec![0u8; len + 64];
         let addr = buf.as_ptr() as usize;
         let start = (64 - addr % 64) % 64;
-        Aligned { buf, start }
+        Aligned { buf, start, len }
     }
     fn slice(&mut self) -> &mut [u8] {
         let s = self.start;
-        &mut self.buf[s..s + ARENA]
+        &mut self.buf[s..s + self.len]
     }
 }
 
@@ -69,7 +70,10 @@ pub fn run(o: &Opts) {
         }
     }
     tr.emit(json!({"ev":"meta","property":o.str("property","C11"),"seed":seed,"kind":kind,"level":level_name}));
-    let mut arena = Aligned::new(ARENA);
+    // --long: a second, larger arena for a few operations on long operands (beyond any internal block size)
+    let long = o.flag("long");
+    let arena_len = if long { 64 + 64 + 16400 + 64 } else { ARENA };
+    let mut arena = Aligned::new(arena_len);
     fill(&mut rng, 0, arena.slice());
     tr.emit(json!({"ev":"arena","bytes":arena.slice().to_vec()}));
     // lengths: every residue of 8/16/32/64 and more than four AVX-512 vectors
@@ -91,6 +95,14 @@ pub fn run(o: &Opts) {
     for &n in &special {
         for c in (0..=255u8).step_by(if lite { 16 } else { 1 }) {
             plan.push((n, offs[(c as usize) % offs.len()], c));
+        }
+    }
+    if long {
+        plan.clear();
+        for &n in &[1000usize, 2048, 4095, 4096, 4097, 4100, 4159, 4160, 4161, 5000, 8191, 8192, 8193, 8255, 10000, 12289, 16383, 16391] {
+            for &off in &[0usize, 1, 63] {
+                plan.push((n, off, rng.random()));
+            }
         }
     }
     let mut ops = 0usize;
@@ -153,12 +165,12 @@ pub fn run(o: &Opts) {
             _ => {}
         }
         let winlo = start.saturating_sub(8);
-        let winhi = (start + n + 8).min(ARENA);
+        let winhi = (start + n + 8).min(arena_len);
         ev["winlo"] = json!(winlo);
         ev["win"] = json!(arena.slice()[winlo..winhi].to_vec());
         tr.emit(ev);
         ops += 1;
-        if ops % 25 == 0 {
+        if ops % 25 == 0 && !long {
             tr.emit(json!({"ev":"snapshot","bytes":arena.slice().to_vec()}));
         }
     }
